@@ -190,20 +190,20 @@ def placeholder_resolved(ctx: Ctx, rule: str) -> None:
 
 
 def run(ctx: Ctx) -> None:
-    loop_progress(ctx, "1")
-    N.pick_agreement(ctx, "2", "setup")
-    N.pick_agreement(ctx, "2c", "cleanup")
-    T.t_g2(ctx, "2/T.G2")
-    T.t_g3(ctx, "2/T.G3")
-    occupied_bounce(ctx, "3")
-    exit_shape(ctx, "4")
-    bounded_wait(ctx, "5")
-    placeholder_resolved(ctx, "6")
-    N.run_decision_table(ctx, "7r")
-    N.clean_decision_table(ctx, "7c")
-    N.should_rerun_table(ctx, "8")
-    T.t_r1(ctx, "8/T.R1")
-    T.t_g4(ctx, "9/T.G4")
+    ctx.call(loop_progress, "1")
+    ctx.call(N.pick_agreement, "2", "setup")
+    ctx.call(N.pick_agreement, "2c", "cleanup")
+    ctx.call(T.t_g2, "2/T.G2")
+    ctx.call(T.t_g3, "2/T.G3")
+    ctx.call(occupied_bounce, "3")
+    ctx.call(exit_shape, "4")
+    ctx.call(bounded_wait, "5")
+    ctx.call(placeholder_resolved, "6")
+    ctx.call(N.run_decision_table, "7r")
+    ctx.call(N.clean_decision_table, "7c")
+    ctx.call(N.should_rerun_table, "8")
+    ctx.call(T.t_r1, "8/T.R1")
+    ctx.call(T.t_g4, "9/T.G4")
     # the drop must exist: otherwise the child picks the same finished parent forever
     sites = [c for c in calls_in(ctx.repo.func(T.TOT).node) if call_name(c) == "drop_parent"]
     ctx.record("9", "COUNT", T.TOT, "a traversed parent that needs no more running is dropped for the child", len(sites) >= 1, {},
